@@ -327,6 +327,14 @@ func matchCollectionName(sampleCollection, targetCollection string) (bool, bool)
 		db1 == cdcreader.AllDatabase || collection1 == cdcreader.AllCollection
 }
 
+// overlapCollectionName returns whether some collection is selected by both names
+func overlapCollectionName(collection1, collection2 string) bool {
+	db1, c1 := util.GetCollectionNameFromFull(collection1)
+	db2, c2 := util.GetCollectionNameFromFull(collection2)
+	return (db1 == db2 || db1 == cdcreader.AllDatabase || db2 == cdcreader.AllDatabase) &&
+		(c1 == c2 || c1 == cdcreader.AllCollection || c2 == cdcreader.AllCollection)
+}
+
 // withoutOnce removes one occurrence of every element of removed from list: the exclude names of a target are kept
 // once per task that excludes them, so giving back the names of one task must not drop those of the other tasks.
 func withoutOnce(list []string, removed []string) []string {
@@ -364,6 +372,12 @@ func (e *MetaCDC) checkDuplicateCollection(uKey string,
 			for _, name := range names {
 				match, containAny := matchCollectionName(name, newCollectionName)
 				if match && containAny && !lo.Contains(e.collectionNames.excludeData[uKey], newCollectionName) {
+					duplicateCollections = append(duplicateCollections, newCollectionName)
+					break
+				}
+				// `*.a` and `db.*` select the same `db.a` while neither contains the other, so neither can exclude it
+				reverseMatch, _ := matchCollectionName(newCollectionName, name)
+				if !match && !reverseMatch && overlapCollectionName(name, newCollectionName) {
 					duplicateCollections = append(duplicateCollections, newCollectionName)
 					break
 				}
